@@ -159,6 +159,9 @@ func (e *SeqEval) resolve(v ssa.Value) ssa.Value {
 	}
 	for i := 0; i < 8; i++ {
 		y := resolvePhi(spillOnPath(v, e.Path.Blocks), e.Path.Blocks)
+		if s, ok := e.Path.Sub[y]; ok {
+			y = s
+		}
 		if y == v {
 			break
 		}
@@ -174,6 +177,24 @@ func (e *SeqEval) fieldStoreOnPath(load *ssa.UnOp) ssa.Value {
 		return nil
 	}
 	want := Render(fa.X) + "." + FieldName(FieldOf(fa))
+	if seq := e.Path.Seq; seq != nil {
+		// an interprocedural path: its instructions in execution order
+		want = RenderOnPath(fa.X, e.Path) + "." + FieldName(FieldOf(fa))
+		at := -1
+		for i, in := range seq {
+			if in == ssa.Instruction(load) {
+				at = i
+			}
+		}
+		for j := at - 1; j >= 0; j-- {
+			if st, ok := seq[j].(*ssa.Store); ok {
+				if fa2, ok := st.Addr.(*ssa.FieldAddr); ok && RenderOnPath(fa2.X, e.Path)+"."+FieldName(FieldOf(fa2)) == want {
+					return st.Val
+				}
+			}
+		}
+		return nil
+	}
 	blocks := e.Path.Blocks
 	at := -1
 	for i := len(blocks) - 1; i >= 0; i-- {
@@ -262,6 +283,20 @@ func (e *SeqEval) Eval(v ssa.Value) Seq {
 					return Seq{}
 				}
 			}
+		}
+		// s[k:] of a sequence that starts with at least k known bytes: those bytes are dropped
+		if k, isK := ConstInt(x.Low); x.Low != nil && x.High == nil && isK && k >= 0 {
+			if _, isArr := Deref(x.X.Type()).Underlying().(*types.Array); !isArr {
+				in := e.Eval(x.X).Norm()
+				if len(in) > 0 && in[0].Atom == "" && int64(len(in[0].Bytes)) >= k {
+					out := Seq{{Bytes: append([]byte(nil), in[0].Bytes[k:]...)}}
+					return append(out, in[1:]...).Norm()
+				}
+			}
+		}
+	case *ssa.MakeSlice:
+		if k, isK := ConstInt(x.Len); isK && k == 0 {
+			return Seq{}
 		}
 	case *ssa.UnOp:
 		if x.Op == token.MUL {
